@@ -1651,14 +1651,20 @@ def expected_git_modules(tag, search):
             continue
         relparts = f[len(pre):].split("/")
         folder = pre + "/".join(relparts[:-1])
-        # every folder between the package and the file must be a regular package (below a namespace top: or the top itself)
-        ok = True
+        # below a namespace package folders without __init__ are namespace sub-packages; below a regular package they are dropped
+        ok, nszone, nsdirs = True, top_ns, []
         for k in range(2, len(relparts)):
             d = pre + "/".join(relparts[:k])
-            if d not in dirs_with_init:
+            if d in dirs_with_init:
+                nszone = False
+            elif nszone:
+                nsdirs.append(".".join(relparts[:k]))
+            else:
                 ok = False
         if not ok:
             continue
+        for nd in nsdirs:
+            out.setdefault(nd, None)
         stem = relparts[-1].split(".")[0]
         name = ".".join(relparts[:-1] if stem == "__init__" else relparts[:-1] + [stem])
         if name in out and relparts[-1].endswith(".pyi"):
@@ -1743,7 +1749,8 @@ def load_git_stream(ctx, n_projects, tag="git"):
         ctx.case(desc, True)
         ctx.observe("stream", "load_git")
         ctx.observe("load_git", f"cwd={desc['cwd']}:{res[0]}")
-        if res[0] != "ok" or res[1] != exp:
+        norm = lambda d: {k: (v.rstrip("\n") if isinstance(v, str) else v) for k, v in d.items()}     # Module.source joins the stored lines
+        if res[0] != "ok" or norm(res[1]) != norm(exp):
             ctx.property_failure({"case": desc, "check": "load-git"},
                                  {"cwd": desc["cwd"], "loaded {module: source}": res[1] if res[0] == "ok" else res,
                                   "the reference holds {module: source}": exp}, finding=None)
@@ -1784,7 +1791,7 @@ RULE = ("targeted layouts (witnesses of all eleven findings, every precedence de
         "family (subsets of m.py/m.pyi/m.so/m.pyc/m/ with and without __init__, every permutation of the package listing); seeded random layouts over 1-3 search paths + .pth-added paths "
         "(regular/namespace/stub/pkgutil-style/module/compiled top-level forms, nested packages to depth 4, junk, __pycache__, dotted file names, dot-files, directories with dotted names at "
         "every level holding modules and sub-packages, .pth lines absolute / relative to the .pth file / relative to the cwd / comments / missing); seeded namespace-heavy layouts (2-3 portions "
-        "with overlapping sub-directories: about half of them have the F8/F3/F10 shapes in the raw scan); pkgutil / pkg_resources-style namespace __init__ files with realistic text (docstring, licence header, coding cookie, imports before the declaration, both quote styles, the import forms, the try/except template; 49 variants); layouts with 2-3 top-level packages sharing folder names in different roles, each checked on its own AND loaded with ONE GriffeLoader in several orders (every tree must be the fresh loader's); histories inside one process (several GriffeLoaders with allow_inspection on/off, find_stubs_package on/off with -stubs distributions present, compiled modules, the same name requested repeatedly), run in a forked child of a worker subprocess, every tree against the tree of the same single request in a fresh forked process; layouts with directory and file symbolic links inside the packages (to siblings, to siblings of parents, across portions; never to an ancestor), Griffe vs CPython's import/walk under all listing orders. Each layout is run under its own, the sorted, the reversed and random listing orders, "
+        "with overlapping sub-directories: about half of them have the F8/F3/F10 shapes in the raw scan); pkgutil / pkg_resources-style namespace __init__ files with realistic text (docstring, licence header, coding cookie, imports before the declaration, both quote styles, the import forms, the try/except template; 49 variants); layouts with 2-3 top-level packages sharing folder names in different roles, each checked on its own AND loaded with ONE GriffeLoader in several orders (every tree must be the fresh loader's); histories inside one process (several GriffeLoaders with allow_inspection on/off, find_stubs_package on/off with -stubs distributions present, compiled modules, the same name requested repeatedly), run in a forked child of a worker subprocess, every tree against the tree of the same single request in a fresh forked process; layouts with directory and file symbolic links inside the packages (to siblings, to siblings of parents, across portions; never to an ancestor), Griffe vs CPython's import/walk under all listing orders; small projects committed and tagged in a scratch Git repository whose working tree then changes, loaded with griffe.load_git by name from three current directories (project root, package parent, elsewhere): {module: source} must be what the reference holds. Each layout is run under its own, the sorted, the reversed and random listing orders, "
         "and loaded by up to 10 paths (top-level directories in and outside the search directories, __init__ files, nested directories and files, a missing path). "
         "non-trivial = at least 4 file-system nodes; distinct by canonical layout")
 TRUSTED = ["translator harness/translate/c14_tables.py (constants and loop shapes of finder.py / loader.py -> coq/Gen/C14_tables.v; the rest of the model is hand-written and tied by differential runs)",
